@@ -85,7 +85,7 @@ static void run_case(Ctx &c, uint64_t i, const GraphSpec &s, bool scramble, uint
                 tags.push_back("P=" + std::to_string(P)); tags.push_back(std::is_same<W, int>::value ? "wtype:int" : "wtype:double"); tags.push_back(std::string("fam:") + s.family.substr(0, s.family.find('+')));
                 tags.push_back(scramble ? "layout:scrambled" : "layout:natural"); if (ds.size() >= 2) tags.push_back("ranks_hold_different_layouts");
                 if (dim == 0) tags.push_back("forest_or_empty"); if (dim >= 2 && dim < s.n) tags.push_back("signed:hidden_edge_branch_possible"); if (dim >= s.n && dim >= 2) tags.push_back("signed:dense_branch_possible");
-                if (s.n >= 2000) tags.push_back("cycles_of_700+_edges"); if (P > s.n) tags.push_back("P>n"); if (P > dim && dim > 0) tags.push_back("P>csd");
+                if (s.n >= 1800) tags.push_back("cycles_of_600+_edges"); if (P > s.n) tags.push_back("P>n"); if (P > dim && dim > 0) tags.push_back("P>csd");
                 bool nt = dim >= 2 && P >= 2 && ds.size() >= 2;
                 J j; j.str("h", hb).num("nt", nt ? 1 : 0).raw("tags", jarr(tags, true));
                 if (!viols.empty()) j.raw("viol", jarr(viols, false));
@@ -116,10 +116,10 @@ int main(int argc, char **argv) {
         else {
             use_int = r.chance(0.25);   // the weight value type is a template parameter (reductions, sentinels): int as well as double
             GenOpts o; o.max_n = max_n; o.tie_bias = 0.55; o.allow_degenerate = true; o.int_only = use_int;
-            if (a.geti("long_cycles", 1) && r.chance(0.03)) {
-                // a ring of 3L unit edges cut into three lobes of L+1 edges by a triangle of chords: the basis cycles have 700-900 edges, so
+            if (r.chance(a.geti("long_cycles_permille", 30) / 1000.0)) {
+                // a ring of 3L unit edges cut into three lobes of L+1 edges by a triangle of chords: the basis cycles have 600-750 edges, so
                 // whatever the ranks exchange about a cycle no longer fits a small message (MPI eager limit: 4 KiB on shared memory here)
-                int L = (int) r.range(700, 900); int n = 3 * L; s.n = n; use_int = false;
+                int L = (int) r.range(600, 750); int n = 3 * L; s.n = n; use_int = false;
                 for (int q = 0; q < n; q++) s.edges.push_back({q, (q + 1) % n, 1});
                 s.edges.push_back({0, L, 2}); s.edges.push_back({L, 2 * L, 2}); s.edges.push_back({0, 2 * L, 2});
                 r.shuffle(s.edges); s.family = "long_ring_three_lobes"; s.wshift = 0; s.wmode = 0; s.tie_rich = false;
